@@ -30,7 +30,13 @@ Paint(buf, img, Wd, l, t, r, b, w) ==
      LET hits == {k \in 1..Len(ws) : ws[k].dst = p - 1} IN
      IF hits = {} THEN buf[p] ELSE img[ws[CHOOSE k \in hits : TRUE].src + 1]]
 
-\* safety envelope for every geometry: indices a memory-safe implementation may touch
+\* Safety envelope for EVERY geometry: a call may succeed only if the rectangle is not inverted and every row it
+\* copies lies inside both buffers (n = number of pixels of the decoded image as the painter sees it)
+OkPermitted(Wd, Hd, l, t, r, b, w, n) ==
+  /\ l <= r /\ t <= b
+  /\ \A i \in 0..(b - t) : /\ (t + i) * Wd + l + (r - l + 1) <= Wd * Hd
+                           /\ i * w + (r - l + 1) <= n
+\* indices a memory-safe implementation may touch
 DstOk(Wd, Hd, d) == d < Wd * Hd
 SrcOk(w, h, s) == s < w * h
 =============================================================================
